@@ -8,7 +8,7 @@ events
   act "call:<dotted callee>"         a synchronous call (arguments' events first, in evaluation order)
   act "read:<dotted attribute>"      a read of one of the WATCHED attributes (the shared queue's head / mark)
   (the receive queue's head / is_marked / pop / mark and queue_send are named by that suffix only, whatever the object is called)
-  act "set:<dotted target>"          an assignment to an attribute or subscript of an object
+  act "set:<dotted target>"          an assignment to an attribute or subscript of an object, or to a local variable
   act "T:<test>" / "F:<test>"        the branch taken (head of the `if` / `while` alternatives)
   act "acquired:<ctx>" / "release:<ctx>"   (async) with - entered / left; `aw "acquire:<ctx>"` before an `async with`
   aw  "<dotted callee>"              an await
@@ -139,6 +139,8 @@ def target(t):
         return seq(expr(t.value), expr(t.slice) if isinstance(t, ast.Subscript) else SKIP, act("set:" + name_of(t)))
     if isinstance(t, (ast.Tuple, ast.List)):
         return seq(*[target(e) for e in t.elts])
+    if isinstance(t, ast.Name):
+        return act("set:" + t.id)          # a local variable (a retry budget, an expected-segment counter, ...)
     return SKIP
 
 
